@@ -115,5 +115,5 @@ func extractC15(repo string, o *Out) {
 		o.problem("RpcClient.counter is not a uint16 field")
 	}
 	o.nat("seqBits", bits, "qnet/rpc.go RpcClient.counter: width of the sequence counter")
-	writeSkeleton(qp, o, "rpc.go", "rpc.txt")
+	c18writeSkeleton(qp, o, "rpc.go", "rpc.txt")
 }
